@@ -257,12 +257,52 @@ End Additive.
 (* ---------------------------------------------------------------------------------------------- *)
 (* function calls: parameter migrators *)
 
+(* the tree of a decimal integer as strconv.Itoa writes it *)
+Definition dec_tree (z : Z) : e3 :=
+  match z with
+  | Z0 => X3Num [48]
+  | Zpos p => X3Num (digits_of 20 (Npos p))
+  | Zneg p => X3Neg (X3Num (digits_of 20 (Npos p)))
+  end.
+
+Lemma digits_of_digits : forall f n, forallb ascii_digit (digits_of f n) = true /\ digits_of f n <> [].
+Proof.
+  assert (D : forall m, m < 10 -> ascii_digit (48 + m) = true) by (intros m Hm; unfold ascii_digit; lia).
+  induction f as [|f IH]; intros n; cbn [digits_of].
+  - split; [cbn [forallb]; rewrite D; [reflexivity | apply N.mod_lt; lia] | discriminate].
+  - destruct (n <? 10) eqn:E.
+    + split; [cbn [forallb]; rewrite D; [reflexivity | lia] | discriminate].
+    + destruct (IH (n / 10)) as [H1 H2]. split.
+      * rewrite forallb_app, H1. cbn [forallb]. rewrite D; [reflexivity | apply N.mod_lt; lia].
+      * intros C. apply app_eq_nil in C. destruct C as [_ C]. discriminate C.
+Qed.
+
+Lemma span_all (p : N -> bool) s : forallb p s = true -> span p s = (s, []).
+Proof.
+  induction s as [|c r IH]; [reflexivity|]. cbn [forallb span]. intros H. apply andb_true_iff in H.
+  destruct H as [H1 H2]. rewrite H1, (IH H2). reflexivity.
+Qed.
+
+Lemma num_ok_digits f n : num_ok (digits_of f n) = true.
+Proof.
+  destruct (digits_of_digits f n) as [H1 H2]. unfold num_ok. rewrite (span_all _ _ H1).
+  destruct (digits_of f n); [contradiction|reflexivity].
+Qed.
+
+Lemma dec_tree_ok z : print3 (dec_tree z) = itoa z /\ good (dec_tree z).
+Proof.
+  destruct z as [|p|p]; cbn [dec_tree itoa print3].
+  - split; [reflexivity | split; reflexivity].
+  - split; [reflexivity | split; [reflexivity | apply num_ok_digits]].
+  - split; [reflexivity | split; [reflexivity | cbn [lex_ok]; apply num_ok_digits]].
+Qed.
+
 Definition pm_tree (m : pmig) (t : e3) : option e3 :=
   match m with
   | PAsIs => Some t
   | PDecremented =>
       match atoi (print3 t) with
-      | Some z => if decremented_keeps_negative && (z <? 0)%Z then Some t else canon (itoa (int64_pred z))
+      | Some z => if decremented_keeps_negative && (z <? 0)%Z then Some t else Some (dec_tree (int64_pred z))
       | None => Some (X3Bin OSub (wrap t 4) num_1)
       end
   | PBySpaces => canon (param_by_spaces (print3 t))
@@ -275,7 +315,7 @@ Proof.
   - unfold param_decremented. destruct (atoi (print3 t)) as [z|].
     + destruct (decremented_keeps_negative && (z <? 0)%Z).
       * inversion H; subst t'. split; [reflexivity|assumption].
-      * apply canon_spec in H. exact H.
+      * inversion H; subst t'. destruct (dec_tree_ok (int64_pred z)) as [P G']. split; [symmetry; exact P | exact G'].
     + inversion H; subst t'. change prec_addition with 4%nat. rewrite as_operand_print by assumption. split.
       * cbn [print3 num_1 op_text]. unfold t_minus_one. norm_app. reflexivity.
       * apply good_bin; [apply good_wrap; assumption | split; reflexivity | apply (wrap_lvl t 4); lia | cbn; lia].
